@@ -55,6 +55,16 @@ CHECKS = {
         note="Trusted: lib/xref.py (independent parser, interpreter, ill-definedness filter incl. evaluation-order read/write-set conflicts). "
              "Ill-defined and over-budget runs are discarded and counted; yield below 30% makes the run inconclusive.",
         ref="4/C01"),
+    "C08": dict(
+        technique="runtime monitoring: memory-access callbacks of the reference ISA model running the emitted image in lock-step with hexsim, plus ASan/UBSan build of hexsim as a second monitor",
+        engine="xref",
+        text="Exploration: the binaries of well-defined X programs (random programs, recursion to depth 199 with frames of 0-40 words, "
+             "arrays filling the top of memory to the last word, empty-frame procedures leaving by stop/exit/return at every call depth) are "
+             "executed with every fetch, load and store checked against the memory limit and the image's code/data regions, the stack-pointer "
+             "word monitored on every store and compared at the return of main; the run is stopped before an access would leave memory.",
+        note="Trusted: harness/refisa.hpp callbacks and the region rule (code = from the entry branch target to the end of the image). "
+             "Dynamic: only executed code is observed.",
+        ref="4/C08"),
 }
 
 PENDING_REASON = "no check registered yet in this revision of /verif (machinery for it is still being built; see DESIGN.md section 4)"
@@ -87,7 +97,7 @@ def main():
              "kind_free_text": "executable reference model of the Hex ISA with pre-step classifier and access monitors"},
             {"name": "asm-decode", "path": "harness/h_asm.cpp", "serves_properties": ["C04", "C05", "C17"],
              "kind_free_text": "in-process assembler driver (HEX_VERIF layout hook) with image decode-walk"},
-            {"name": "xref", "path": "lib/xref.py", "serves_properties": ["C01"],
+            {"name": "xref", "path": "lib/xref.py", "serves_properties": ["C01", "C08"],
              "kind_free_text": "reference parser and definitional interpreter for X with event log and well-definedness monitor; lib/xgen.py generators; harness/h_x.cpp compile+lock-step runner"},
             {"name": "buildcache", "path": "lib/common.py", "serves_properties": sorted(CHECKS),
              "kind_free_text": "content-hash build cache, fork-per-case runner, verdict/evidence/known-finding plumbing"},
